@@ -8,7 +8,8 @@ WHAT = {"P18-bank-card-not-bank": "a card whose first application entry carries 
         "P18-no-uid-but-card": "a card was reported although the terminal sent neither application list nor UID",
         "P18-no-data-but-card": "a card was reported although the status carried no TLV data",
         "P18-timeout-not-no-card": "the terminal's time-out (6C) was not reported as 'no card presented'",
-        "P18-abort-not-error": "an abort other than the time-out was not reported as an error"}
+        "P18-abort-not-error": "an abort other than the time-out was not reported as an error",
+        "P18-no-card-without-the-terminal-saying-so": "'no card presented' was reported although the terminal sent no time-out abort (it was still reporting)"}
 
 
 def ber(tag, body):
@@ -35,6 +36,11 @@ def raw_status_shapes():
         for body in (sub, uid + sub, sub + uid, sub + ber(0x60, ctype), uid + unk[0] + sub, uid + sub + unk[1]):
             shapes.append(body)
     shapes += [uid + u for u in unk] + [u + uid for u in unk]
+    # the same data objects with the two-byte form of a short length (81 0c ...): legal BER, not what the library writes
+    def ber2(tag, body):
+        t = [tag >> 8, tag & 255] if tag > 255 else [tag]
+        return t + [0x81, len(body)] + list(body)
+    shapes += [ber2(0x60, aid), uid + ber2(0x60, ctype + aid), ber2(0x4c, [0x04, 0xa1, 0xb2, 0xc3]), ber(0x60, ber2(0x43, [0xa0, 0, 0, 0, 4, 0x10, 0x10]))]
     out = []
     for k, body in enumerate(shapes):
         bmp06 = [0x06] + ber(0, body)[1:]          # BMP 06: BER length, then the container
@@ -44,6 +50,11 @@ def raw_status_shapes():
         out.append({"calls": [{"op": "read_card"}], "term": {"chunk": [0, 0, 5, 1][k % 4]},
                     "plan": {"exchanges": [], "scripts": {"ReadCard": [{"script": [[0x04, 0xff, 0x01, 0x0a]] * (k % 3) + [frame]}]},
                              "default": {"o": "ok", "uid": [1, 2, 3, 4]}}})
+    # the card is presented late: intermediate statuses every few seconds keep the exchange alive beyond the configured card timeout
+    for n, gap in ((3, 10000), (6, 14000), (2, 14900), (1, 9000)):
+        for data in ({"uid": [4, 161, 178, 195]}, {"uid": [4, 161, 178, 195], "subs": [{"aid": [160, 0, 0, 0, 4, 16, 16]}]}):
+            out.append({"calls": [{"op": "read_card"}], "config": {"read_card_timeout": 15},
+                        "plan": {"exchanges": [dict({"o": "status", "inter": n, "delays": [gap] * (n + 1)}, **data)], "default": {"o": "ok", "uid": [1, 2, 3, 4]}}})
     return out
 
 
